@@ -41,7 +41,7 @@ func init() {
 		Run: run,
 		Floors: func(t string) map[string]int64 {
 			return map[string]int64{"pair.hop": 500, "pair.axis": 300, "pair.ordinary": 300, "history.calls": 20000, "history.repeat_call": 2000, "history.to_registered_wgs84": 1000, "history.failing_input": 1000, "pair.one_side_cannot_be_set_up": 100,
-				"structure.failing_k": 10000, "structure.shared_backing_array": 1000, "longpath.vertices>=2048": 15, "structure.nil_transformer": 1000, "structure.real_transformer": 1000, "structure.*Bounds": 100, "structure.GeometryCollection": 100, "structure.MultiPolygon": 100, "structure.MultiLineString": 100}
+				"structure.failing_k": 10000, "structure.shared_backing_array": 1000, "structure.arbitrary_bit_patterns": 1000, "longpath.vertices>=2048": 15, "structure.nil_transformer": 1000, "structure.real_transformer": 1000, "structure.*Bounds": 100, "structure.GeometryCollection": 100, "structure.MultiPolygon": 100, "structure.MultiLineString": 100}
 		},
 	})
 }
@@ -418,6 +418,13 @@ func runStructure(c *core.Ctx) {
 		Coord:      func(r *gen.R) float64 { return r.Range(-1000, 1000) },
 		MaxMembers: 4, MaxVerts: 4, MinVerts: 0, MinMembers: 0, MaxDepth: 3,
 	}
+	bits := r.Chance(0.1)
+	if bits {
+		// arbitrary bit patterns: NaN (also in both ordinates), infinities, -0, extremes - the
+		// transformer is the one to judge them, Transform just has to hand every vertex over
+		o.Coord = gen.BitsCoord
+		c.Count("structure.arbitrary_bit_patterns")
+	}
 	k := o.Kinds[r.Intn(len(o.Kinds))]
 	g := gen.RandGeomKind(r, o, k, 0)
 	name := tname(g)
@@ -516,7 +523,7 @@ func runStructure(c *core.Ctx) {
 		}
 	}
 	// (iv) a real datum-shifting transformer, vertex by vertex against fresh single-use transformers
-	if len(want) > 0 && r.Chance(0.15) {
+	if len(want) > 0 && !bits && r.Chance(0.15) {
 		c.Eval()
 		c.Count("structure.real_transformer")
 		S := "+proj=longlat +datum=potsdam +no_defs"
